@@ -286,7 +286,8 @@ func (c *SessionCache) InvalidateExpired() int {
 	count := 0
 
 	for id, entry := range c.sessions {
-		if !entry.expiration.IsZero() && now.After(entry.expiration) {
+		// Expiration() takes the entry lock: RenewLease may be updating it concurrently.
+		if exp := entry.Expiration(); !exp.IsZero() && now.After(exp) {
 			delete(c.sessions, id)
 			count++
 		}
@@ -320,8 +321,8 @@ func (c *SessionCache) DebugDump() string {
 	b.WriteString("sessions:\n")
 	for id, entry := range c.sessions {
 		exp := "never"
-		if !entry.expiration.IsZero() {
-			exp = entry.expiration.Format(time.RFC3339Nano)
+		if e := entry.Expiration(); !e.IsZero() {
+			exp = e.Format(time.RFC3339Nano)
 		}
 		fmt.Fprintf(&b, "- id=%s addr=%s tag=%s lease=%s exp=%s\n", id, entry.addr, entry.tag, entry.lease, exp)
 	}
